@@ -304,7 +304,7 @@ func FunctionMap() map[string]physical.FunctionDetails {
 					OutputType:    octosql.String,
 					Strict:        true,
 					Function: func(values []octosql.Value) (octosql.Value, error) {
-						return octosql.NewString(strings.Repeat(values[0].Str, int(values[1].Int))), nil
+						return repeatString(values[0].Str, values[1].Int)
 					},
 				},
 				{
@@ -312,7 +312,7 @@ func FunctionMap() map[string]physical.FunctionDetails {
 					OutputType:    octosql.String,
 					Strict:        true,
 					Function: func(values []octosql.Value) (octosql.Value, error) {
-						return octosql.NewString(strings.Repeat(values[1].Str, int(values[0].Int))), nil
+						return repeatString(values[1].Str, values[0].Int)
 					},
 				},
 			},
@@ -1157,4 +1157,16 @@ func FunctionMap() map[string]physical.FunctionDetails {
 			},
 		},
 	}
+}
+
+// repeatString is the String * Int operator. A negative or absurdly large count is reported as an error
+// (strings.Repeat panics on those).
+func repeatString(str string, count int64) (octosql.Value, error) {
+	if count < 0 {
+		return octosql.ZeroValue, fmt.Errorf("can't repeat a string a negative number of times: %d", count)
+	}
+	if len(str) > 0 && count > (1<<31)/int64(len(str)) {
+		return octosql.ZeroValue, fmt.Errorf("repeating a %d byte string %d times would be too large", len(str), count)
+	}
+	return octosql.NewString(strings.Repeat(str, int(count))), nil
 }
